@@ -154,6 +154,8 @@ pub enum Sym {
     /// any byte of the set
     T(Vec<u8>),
     N(usize, PExpr),
+    /// a token reference: any token id of the set, consumed as one unit
+    Tok(Vec<u32>),
 }
 
 #[derive(Clone, Debug)]
@@ -346,6 +348,44 @@ impl<'a> Earley<'a> {
         Some(c)
     }
 
+    /// scan one token reference; None when no item expects a token set containing `t`
+    pub fn step_tok(&self, chart: &Chart, t: u32) -> Option<Chart> {
+        let k = chart.sets.len() - 1;
+        let mut next = vec![];
+        for it in chart.sets[k].iter() {
+            let alt = &self.g.nts[it.nt as usize][it.alt as usize];
+            if (it.dot as usize) < alt.syms.len() {
+                if let Sym::Tok(ts) = &alt.syms[it.dot as usize] {
+                    if ts.contains(&t) {
+                        next.push(Item { dot: it.dot + 1, ..*it });
+                    }
+                }
+            }
+        }
+        if next.is_empty() {
+            return None;
+        }
+        let mut c = chart.clone();
+        c.sets.push(next);
+        self.close(&mut c);
+        Some(c)
+    }
+
+    /// token ids expected by some item at a token-reference position
+    pub fn expected_toks(&self, chart: &Chart) -> std::collections::BTreeSet<u32> {
+        let k = chart.sets.len() - 1;
+        let mut out = std::collections::BTreeSet::new();
+        for it in chart.sets[k].iter() {
+            let alt = &self.g.nts[it.nt as usize][it.alt as usize];
+            if (it.dot as usize) < alt.syms.len() {
+                if let Sym::Tok(ts) = &alt.syms[it.dot as usize] {
+                    out.extend(ts.iter().copied());
+                }
+            }
+        }
+        out
+    }
+
     pub fn run(&self, chart: &Chart, bytes: &[u8]) -> Option<Chart> {
         let mut c = chart.clone();
         for b in bytes {
@@ -366,7 +406,7 @@ impl<'a> Earley<'a> {
         let k = chart.sets.len() - 1;
         chart.sets[k].iter().any(|it| {
             let alt = &self.g.nts[it.nt as usize][it.alt as usize];
-            (it.dot as usize) < alt.syms.len() && matches!(alt.syms[it.dot as usize], Sym::T(_))
+            (it.dot as usize) < alt.syms.len() && matches!(alt.syms[it.dot as usize], Sym::T(_) | Sym::Tok(_))
         })
     }
 
@@ -428,6 +468,7 @@ fn print_pgram(names: &[&str], bnf: &Bnf, start_param: u64) -> String {
             for sym in a.syms.iter() {
                 match sym {
                     Sym::T(bs) => lit.push(bs[0] as char),
+                    Sym::Tok(_) => {}
                     Sym::N(n, e) => {
                         flush(&mut lit, &mut rhs);
                         rhs.push_str(&format!("{}::{} ", names[*n], e.lark()));
